@@ -360,6 +360,18 @@ def check_C03(tier, seed):
         c.meta = {'under': False}
         cases.append(c)
     res.cov['arity_cases'] = na
+    # definitions carried out at run time for a symbol that has only a temporary binding (let variable, parameter, loop
+    # variable) and no global value: the definition becomes the global value UNDER the temporary binding, which is undone
+    rt = [("(let ((zq 17)) (eval (list 'defun 'zq nil 42)) (list zq (zq)))", 'zq'), ("(funcall (lambda (cb) (eval (list 'defun 'cb nil 7)) (list cb (cb))) 5)", 'cb'),
+          ("(dolist (dv '(1 2)) (eval (list 'defun 'dv nil 9)))", 'dv'), ("(dotimes (dt 2) (eval (list 'defun 'dt nil 9)))", 'dt'), ("(let ((ze 1)) (eval (list 'defun 'ze nil 1)) (nofn))", 'ze'),
+          ("(let ((zl 1)) (let ((zl 2)) (eval (list 'defun 'zl '(a) 'a))) (list zl (zl 3)))", 'zl'), ("(defmacro define-getter (name value) (list 'defun name nil value)) (let ((answer 17)) (define-getter answer 42) (list answer (answer)))", 'answer'),
+          ("(let* ((zs 1) (zt (eval (list 'defun 'zs nil 2)))) (list zs (zs)))", 'zs'), ("(if-let ((zi 5)) (progn (eval (list 'defun 'zi nil 6)) (list zi (zi))))", 'zi'),
+          ("(let ((zg 1)) (eval (list 'setq 'zg 2)) (eval (list 'defun 'zg nil 3)) zg)", 'zg')]
+    for j, (text, var) in enumerate(rt):
+        c = Case('rt%d' % j)
+        c.eval(text); c.vars([var]); c.eval("(boundp '%s)" % var); c.eval(var); c.eval('(%s 1)' % var if var == 'zl' else '(%s)' % var); c.vars([var])
+        c.meta = {'under': False}
+        cases.append(c)
     impl, model, dis = differential(res, cases)
     # model-free oracle on the implementation
     byid = {c.cid: c for c in cases}
@@ -1478,10 +1490,33 @@ def check_C07(tier, seed):
                         "(let ((direct (let %s %s))) (list (equal (funcall f) direct) (let ((x 'dyn) (l3 '(dyn)) (l1 nil)) (equal (funcall f) direct)) direct))"
                         % (LETB, text_t, LETB, text_t))
                 clos.append((prog, {'tmpl': text_t, 'closure': True}))
+    # a backquote inside a template is data for the outer one: its unquotes are neither evaluated nor macro-expanded
+    # (macro calls known when the text is read, inside the inner unquote / splice / dotted tail / quoted unquote)
+    npre = "(setq v 1) (setq x 5) (defmacro inc (v) `(setq ,v (+ ,v 1)))"
+    nested = []
+    for inner in ["`(b ,(inc v))", "`(b ,@(-> v list))", "`(b . ,(inc v))", "`(,(inc v) ,',x)", "`(b (c ,(when v (inc v))) ,@(->> v list))", "'`(,(inc v))", "`(b `(c ,(inc v)))", "`(,@(thread-first v (list 1)))"]:
+        for outer in ["`(a %s)", "`(a (c %s) ,x)", "`(,x . (%s))", "`(a ,@(list 1 2) %s)", "`(%s %s)"]:
+            tmpl = outer.replace('%s', inner)
+            datum = outer.replace('`(', '(', 1).replace(',@(list 1 2)', '1 2').replace(',x', '5').replace('%s', inner[1:] if False else '%s')
+            # the expected value, written as quoted data with the inner template verbatim
+            exp = "'" + outer[1:].replace(',@(list 1 2)', '1 2').replace(',x', '5').replace('%s', inner)
+            nested.append(("%s (let ((r %s)) (list (equal r %s) v (prin1-to-string r) (prin1-to-string %s)))" % (npre, tmpl, exp, exp), {'tmpl': tmpl, 'nested': True}))
     rows = run_exprs(res, items, per_case=20)
     rows2 = run_exprs(res, fresh, per_case=10, tag='f')
     rows3 = run_exprs(res, clos, per_case=20, tag='c')
+    rows4 = run_exprs(res, nested, per_case=10, tag='n')
     nv = 0
+    for text, meta, im, mo in rows4:
+        if im is None: continue
+        ok_ = False
+        if im['kind'] == 'V':
+            m = re.match(r'^\(t 1 ("(?:[^"\\]|\\.)*") ("(?:[^"\\]|\\.)*")\)$', im['payload'])
+            ok_ = bool(m) and m.group(1) == m.group(2)
+        if not ok_:
+            nv += 1
+            if nv <= 8: res.violation('backquote', {'program': text, 'template': meta['tmpl'], 'impl': im,
+                                                    'why': 'a template nested in a template is not returned as written (its unquotes evaluated or macro-expanded), or a variable changed'})
+    res.cov['nested_templates'] = len(nested)
     for text, meta, im, mo in rows3:
         if im is None: continue
         if im['kind'] != 'V' or not im['payload'].startswith('(t t '):
@@ -1969,6 +2004,28 @@ def check_C04(tier, seed):
             res.violation('tail-meaning', {'defun': meta['defun'], 'why': 'result, side effects or final variables differ from ordinary recursion (the same definition with its self-calls written (funcall \'f ...))',
                                            'renamed_apart': rmeta.get(i),
                                            'trampolined': [decode_line(l) for l in impl.get('t%d' % i, [])], 'ordinary': [decode_line(l) for l in impl.get('u%d' % i, [])]})
+    # one-parameter functions with a self tail call, applied by the sequence functions (every call site goes through the loop)
+    one = [("(setq g 0) (defun f1 (n) (if (< n 1) (list 'done g) (progn (setq g (+ g 1)) (f1 (- n 1)))))", [("(mapcar 'f1 '(0 1 2 5))", '((done 0) (done 1) (done 3) (done 8))'), ("(seq-map #'f1 '(3))", '((done 11))'), ("(f1 2)", '(done 13)')]),
+           ("(defun ev-down (n) (cond ((< n 1) t) ((< n 2) nil) (t (ev-down (- n 2)))))", [("(seq-filter 'ev-down '(0 1 2 3 4 7 10))", '(0 2 4 10)'), ("(seq-find 'ev-down '(1 3 4 5))", '4'), ("(mapcar #'ev-down '(5 6))", '(nil t)'),
+                                                                                             ("(seq-find 'ev-down '(1 3) 'none)", 'none'), ("(funcall 'ev-down 20001)", 'nil')]),
+           ("(defun last-el (l) (if (consp (cdr l)) (last-el (cdr l)) (car l)))", [("(mapcar 'last-el '((1 2 3) (4) nil))", '(3 4 nil)'), ("(seq-filter 'last-el '((1 nil) (2 3)))", '((2 3))'), ("(seq-reduce (lambda (a l) (+ a (last-el l))) '((1 2) (3 4)) 0)", '6')]),
+           ("(defun cnt (n &optional acc) (if (< n 1) (or acc 0) (cnt (- n 1) (+ 1 (or acc 0)))))", [("(mapcar 'cnt '(0 3 10))", '(0 3 10)'), ("(seq-map 'cnt '(200000))", '(200000)')]),
+           ("(defun upto (n &rest acc) (if (< n 1) acc (upto (- n 1) n)))", [("(mapcar 'upto '(0 1 3))", '(nil (1) (1))'), ("(seq-filter 'upto '(0 2))", '(2)')])]
+    ocases = []
+    for j, (d_, calls_) in enumerate(one):
+        c = Case('one%d' % j); c.eval(d_)
+        for call_, _ in calls_: c.eval(call_)
+        ocases.append(c)
+    oimpl, omodel, odis = differential(res, ocases)
+    for c, (d_, calls_) in zip(ocases, one):
+        ls = oimpl.get(c.cid, [])
+        for k, (call_, want) in enumerate(calls_):
+            got = None
+            if k + 1 < len(ls):
+                _, kind_, payload_, _ = core.parse_line(ls[k + 1]); got = unhx(payload_) if kind_ == 'V' else kind_
+            if got != want:
+                nv += 1
+                if nv <= 8: res.violation('tail-meaning', {'defun': d_, 'call': call_, 'expected': want, 'got': got, 'why': 'a function with a self tail call gives a different result when a sequence function applies it'})
     replay_known(res, 'C04')
     classifier_hits(res, 'C04', 'c04_let_tail_dynamic', kf_let, kf_example)
     res.cov['dynamic_let_tail_cases'] = kf_let
@@ -2734,6 +2791,10 @@ def check_C18(tier, seed):
         ('build', build('big', N)), ('build2', build('big2', N)),
         ('length', '(length big)'), ('nth', '(nth %d big)' % (N - 1)), ('nthcdr', '(car (nthcdr %d big))' % (N - 1)), ('last', '(car (last big))'), ('last-n', '(length (last big %d))' % (N - 5)),
         ('equal', '(equal big big2)'), ('equal-cons', "(equal (cons 1 big) (cons 1 big2))"), ('equal-differ', "(equal big (cdr big2))"),
+        # lists that physically share their cells: one list against itself, two heads on one long tail, a shared tail behind different prefixes
+        ('equal-self', '(equal big big)'), ('equal-shared-tail', '(equal (cons 1 big) (cons 1 big))'), ('equal-shared-differ', '(equal (cons 1 big) (cons 2 big))'),
+        ('equal-shared-late', '(equal (cons 1 (cons 2 big)) (list 1 2))'), ('eq-self', '(eq big big)'), ('assoc-shared', '(car (assoc big (list (cons big 1))))'),
+        ('sort-shared', "(length (sort (list big big) (lambda (p q) (equal p q))))"),
         ('print', '(length (prin1-to-string big))'), ('format-s', '(length (format "%s" big))'), ('format-S', '(length (format "%S" (list big)))'),
         ('error-int', '(+ 1 big)'), ('error-float', '(+ 1.5 big)'), ('error-cmp', '(< 1 big)'), ('error-nth', '(nth big big)'), ('error-format-d', '(format "%d" big)'), ('error-format-f', '(format "%f" big)'),
         ('error-expt', '(expt big 2)'), ('error-concat', '(concat big)'), ('error-funcall', '(funcall big)'), ('error-1+', '(1+ big)'), ('error-mod', '(mod big 2)'), ('error-string<', '(string< big "a")'),
@@ -2831,6 +2892,16 @@ def check_C19(tier, seed):
             texts.append('(let ((i 0) (found nil)) (while (< i %d) (setq found (cons (gethash (concat "%s") hs) found)) (setq i (+ i 1))) found)' % (nk, s))
             texts.append('(let ((k (concat "%s"))) (puthash k (quote mine) hs) (list (gethash k hs) (gethash "%s" hs) (gethash (format "%%s" "%s") hs)))' % (s, s, s))
             texts.append('(let ((i 0) (hits 0)) (while (< i %d) (if (gethash (concat "%s") hs) (setq hits (+ hits 1))) (setq i (+ i 1))) hits)' % (nk, s))
+        if rng.random() < 0.12:
+            # many separately evaluated texts, each applying a short-lived lambda with its own parameter list (names, count,
+            # &optional / &rest layout): what a lambda binds cannot depend on which addresses earlier texts happened to use
+            pn = ['a', 'b', 'c', 'd', 'e2', 'k', 'm', 'n2', 'p', 'q', 'r2', 'u', 'w', 'y', 'z']
+            for _ in range(rng.choice([30, 60])):
+                names_ = rng.sample(pn, rng.choice([1, 2, 3, 4]))
+                nreq = rng.randint(0, len(names_)); rest_ = rng.random() < 0.3 and nreq < len(names_)
+                plist = names_[:nreq] + (['&optional'] + names_[nreq:len(names_) - (1 if rest_ else 0)] if nreq < len(names_) - (1 if rest_ else 0) else []) + (['&rest', names_[-1]] if rest_ else [])
+                nargs = rng.randint(nreq, len(names_) + (2 if rest_ else 0))
+                texts.append('(funcall (lambda (%s) (list %s)) %s)' % (' '.join(plist), ' '.join(names_), ' '.join(str(rng.randint(0, 99)) for _ in range(nargs))))
         hists.append((texts, g.all_vars()))
     noise = ["(defun length (x) 42)", "(setq max 5)", "(defun f0 (&rest r) 'other-context)", "(setq a 'leak) (setq b 'leak) (setq x 'leak)", "(defmacro when (&rest r) ''hijacked)",
              "(setq gensym-counter 500)", "(defun car (x) 'no)", "(setq t1 (intern \"t\"))", "(defun r0 (n acc) 'other)", "(setq ht (make-hash-table)) (puthash 1 'other ht)", "(defun + (&rest r) 0)"]
